@@ -40,6 +40,14 @@ class MinNeeds(Contract):
         (VALID, "Validator.verify_food_usage_priorities_round2"): _assertion_only,
     }
 
+    def __init__(self, integer_series=False):
+        # integer_series: the no-feed round's series held as numpy INTEGER arrays (whole kcals, as a test or a caller
+        # building Food(kcals=[400, 150, ...]) gives them): the amounts handed on are still real numbers - the cap
+        # is - and must not be truncated to the dtype of what they are taken from
+        self.integer_series = integer_series
+        if integer_series:
+            self.name = "greedy_fill_from_integer_valued_series"
+
     def inputs(self, S):
         N = S.int("N")
         S.assume(N >= 1)
@@ -57,7 +65,7 @@ class MinNeeds(Contract):
         names["immediate"] = "immediate_outdoor_crops_kcals_equivalent"
         names["new_stored"] = "new_stored_outdoor_crops_kcals_equivalent"
         for key, attr in names.items():
-            s = S.series("a_" + key, N)
+            s = S.series("a_" + key, N, dtype="int" if self.integer_series else "float")
             S.forall(N, lambda i, s=s: s[i] >= 0)
             avail[key] = s
             attrs[attr] = S.food(kcals=s, **units)
@@ -150,7 +158,7 @@ class BumpAnyInputs(Contract):
                 "feed_not_raised_above_demand": nf[i] <= Max(a["feed"][i], a["max_feed"][i])}
 
 
-CONTRACTS = [MinNeeds(), Bump(), BumpAnyInputs()]
+CONTRACTS = [MinNeeds(), MinNeeds(integer_series=True), Bump(), BumpAnyInputs()]
 TRUSTED = [
     "machine floats treated as mathematical reals (DESIGN 2.2)",
     "numpy element-wise models: minimum, maximum, where, zeros, zeros_like, array, arithmetic (npmodel.py)",
